@@ -274,6 +274,8 @@ def main(argv=None) -> int:
     r.add_argument("path")
     s = sub.add_parser("selftest")
     s.add_argument("props", nargs="*")
+    vv = sub.add_parser("variant")
+    vv.add_argument("vids", nargs="+")
     a = ap.parse_args(argv)
     try:
         if a.self_check:
@@ -284,6 +286,15 @@ def main(argv=None) -> int:
             return cmd_replay(a.path)
         if a.cmd == "selftest":
             return cmd_selftest(a.props)
+        if a.cmd == "variant":
+            rc = 0
+            for vid in a.vids:
+                r = run_variant(vid.split("-")[0], variants.by_id(vid), "thorough")
+                print(json.dumps({k: v for k, v in r.items() if k != "trace"}, indent=1))
+                if r.get("trace"):
+                    print(r["trace"])
+                rc = rc or (0 if r["ok"] else 2)
+            return rc
         ap.print_help()
         return 2
     except SystemExit:
